@@ -245,7 +245,7 @@ def body_library(case, ctx):
 
 def parts():
     return [
-        Part("dense_nesting", body, strategy=strat_dense, quick=1500, thorough=4000),
+        Part("dense_nesting", body, strategy=strat_dense, quick=2500, thorough=5000),
         Part("programs", body, strategy=strat, quick=800, thorough=4000),
         Part("library", body_library, items=items_library),
     ]
